@@ -35,7 +35,11 @@ def _case(draw, kind=None):
     kind = kind or draw(st.sampled_from(KINDS))
     cls = getattr(S, kind)
     props = observe.settable_properties(cls)
-    c = {"kind": kind, "prop": draw(st.sampled_from(props)), "logm": draw(zoo.f(-3, 3)), "bad": draw(st.integers(0, len(BAD) - 1)),
+    # the factor between the current and the assigned value: any decade, and (a quarter of the cases) a hair's breadth
+    # from 1 - a setter must not treat "almost the current value" as "nothing to do"
+    logm = draw(zoo.f(-3, 3)) if draw(st.integers(0, 3)) else draw(st.sampled_from([4.3429e-4, -4.3429e-4, 4.3429e-6, -4.3429e-6, 4.3429e-7,
+                                                                                        -4.3429e-7, 4.3429e-9, 4.3429e-11]))
+    c = {"kind": kind, "prop": draw(st.sampled_from(props)), "logm": logm, "bad": draw(st.integers(0, len(BAD) - 1)),
          "radius": draw(zoo.f(-2, 0.5)), "centre_to": [draw(zoo.f(-10, 10)) for _ in range(3)]}
     if kind in ("ConvexPolyhedron", "Polyhedron", "ConvexSpheropolyhedron"):
         c["cvx"] = draw(zoo.convex3d(max_n=14))
@@ -212,7 +216,8 @@ def _run(case, rec):
         rec.fail("valid_target_raised", dict(sig, type=r.type), msg=r.msg)
         return
     rec.label("pair:%s.%s" % (kind, prop))
-    rec.nontrivial = abs(case["logm"]) >= 0.5
+    rec.nontrivial = abs(case["logm"]) >= 0.5 or 0 < abs(case["logm"]) < 1e-3
+    rec.label("factor_within_1e-3_of_one" if 0 < abs(case["logm"]) < 1e-3 else None)
     V1, L1, C1 = defining(obj)
     if prop in PARAMS or (prop == "radius" and V0 is not None):
         # a shape parameter: read-back, everything else untouched
